@@ -138,6 +138,8 @@ func main() {
 	case "replay":
 		runtime.GOMAXPROCS(1)
 		replayMain(fs, os.Args[2:])
+	case "race":
+		raceMain(fs, os.Args[2:])
 	case "mkfixtures":
 		mkfixturesMain(os.Args[2:])
 	case "mkkeys":
